@@ -1,12 +1,14 @@
 package main
 
 import (
+	"flag"
 	"fmt"
 	"os"
 	"path/filepath"
 	"reflect"
 	"strconv"
 	"strings"
+	"testing"
 	"time"
 
 	"github.com/whoisnian/glb/config"
@@ -16,7 +18,11 @@ import (
 // C10: command-line grammar of config.FlagSet.Parse.
 //
 //	T <idx> <hexname>:<kind>:<hexdefault>,...                         flag table idx (0 = c10Cfg, 1.. = the small structs) in flagList order
-//	E <idx> <intsize> <vec> <class> <detail> <args> <help> <fields>   one Parse(vec) on a fresh struct of table idx + FlagSet
+//	E <idx> <intsize> <mode> <unchanged> <vec> <class> <detail> <args> <help> <fields>
+//
+// mode P0: Parse(vec) on a fresh struct of table idx + FlagSet; P1: a LATER Parse(vec) on the FlagSet of the preceding
+// P0 line (unchanged = the struct's fields are as before the call); F: config.FromCommandLine with os.Args = cmd + vec;
+// FT: the same after testing.Init() has registered package testing's flags in the global flag.CommandLine.
 //
 // intsize = strconv.IntSize of the platform the harness was built for (VERIF_C10_MODE=ints: only the integer vectors,
 // used for the GOARCH=386 pass).
@@ -137,35 +143,78 @@ type c10Obs struct {
 	fields []string
 }
 
-func c10Run(tab *c10Tab, vec []string) (o c10Obs) {
+type c10Sess struct {
+	cfg any
+	fs  *config.FlagSet
+}
+
+func c10Snapshot(tab *c10Tab, cfg any) []string {
+	val := reflect.ValueOf(cfg).Elem()
+	var l []string
+	for _, p := range tab.paths {
+		l = append(l, c10Canon(val, p))
+	}
+	return l
+}
+
+// c10Run: one call. sess == nil: fresh struct + FlagSet (mode P0, or F/FT through FromCommandLine); otherwise a later
+// Parse on sess's FlagSet (and sess is filled by a P0 call when empty).
+func c10Run(tab *c10Tab, sess *c10Sess, mode string, vec []string) (o c10Obs, unchanged bool) {
+	unchanged = true
 	defer func() {
 		if r := recover(); r != nil {
 			o = c10Obs{class: 5, detail: fmt.Sprint(r)}
 		}
 	}()
-	cfg := tab.mk()
-	fs, err := config.NewFlagSet(cfg)
-	if err != nil {
-		return c10Obs{class: 4, detail: "NewFlagSet: " + err.Error()}
+	var cfg any
+	var fs *config.FlagSet
+	var err error
+	var fromArgs []string
+	switch {
+	case mode == "F" || mode == "FT":
+		cfg = tab.mk()
+		saved := os.Args
+		os.Args = append([]string{"cmd"}, vec...)
+		fromArgs, err = config.FromCommandLine(cfg)
+		os.Args = saved
+	case sess != nil && sess.fs != nil:
+		cfg, fs = sess.cfg, sess.fs
+		before := c10Snapshot(tab, cfg)
+		err = fs.Parse(append([]string(nil), vec...))
+		after := c10Snapshot(tab, cfg)
+		for i := range before {
+			if before[i] != after[i] {
+				unchanged = false
+			}
+		}
+	default:
+		cfg = tab.mk()
+		fs, err = config.NewFlagSet(cfg)
+		if err != nil {
+			return c10Obs{class: 4, detail: "NewFlagSet: " + err.Error()}, true
+		}
+		if sess != nil {
+			sess.cfg, sess.fs = cfg, fs
+		}
+		err = fs.Parse(append([]string(nil), vec...))
 	}
-	arg := append([]string(nil), vec...)
-	err = fs.Parse(arg)
 	if err != nil {
 		msg := err.Error()
 		for i, p := range []string{"config: bad flag syntax: ", "config: flag provided but not defined: ", "config: flag needs an argument: "} {
 			if strings.HasPrefix(msg, p) {
-				return c10Obs{class: i + 1, detail: msg[len(p):]}
+				return c10Obs{class: i + 1, detail: msg[len(p):]}, unchanged
 			}
 		}
-		return c10Obs{class: 4}
+		return c10Obs{class: 4}, unchanged
 	}
-	o.args = fs.Args()
-	o.help = fs.ShowUsage()
-	val := reflect.ValueOf(cfg).Elem()
-	for _, p := range tab.paths {
-		o.fields = append(o.fields, c10Canon(val, p))
+	if fs != nil {
+		o.args = fs.Args()
+		o.help = fs.ShowUsage()
+	} else {
+		o.args = fromArgs // FromCommandLine returns Args(); had ShowUsage() been true it would have exited
 	}
-	return o
+	o.fields = c10Snapshot(tab, cfg)
+	return o, unchanged
 }
 
 var c10Values = map[string][]string{
@@ -298,8 +347,10 @@ func runC10(e *hk.Env) error {
 	lens := map[int]int{}
 	total := 0
 	cur := &c10Tabs[0]
+	mode := "P0"
+	var sess *c10Sess
 	emit := func(vec []string) {
-		o := c10Run(cur, vec)
+		o, unch := c10Run(cur, sess, mode, vec)
 		total++
 		classes[className[o.class]]++
 		lens[len(vec)]++
@@ -313,7 +364,7 @@ func runC10(e *hk.Env) error {
 		if o.class == 0 {
 			fields = joinHex(o.fields)
 		}
-		e.Case("E", strconv.Itoa(cur.idx), strconv.Itoa(strconv.IntSize), key, strconv.Itoa(o.class), hk.Hxs(o.detail), joinHex(o.args), h, fields)
+		e.Case("E", strconv.Itoa(cur.idx), strconv.Itoa(strconv.IntSize), mode, map[bool]string{false: "0", true: "1"}[unch], key, strconv.Itoa(o.class), hk.Hxs(o.detail), joinHex(o.args), h, fields)
 		if total%9973 == 7 {
 			e.Sample("samples", map[string]any{"vector": vec, "class": className[o.class], "detail": o.detail, "args": o.args, "fields": o.fields}, 6)
 		}
@@ -487,6 +538,93 @@ func runC10(e *hk.Env) error {
 		}
 	}
 	e.Stats["repeat_spelling_vectors"] = total - t3
+	// (c) histories: two Parse calls on ONE FlagSet — the first fails after having recorded flags (or succeeds), the second
+	// carries another vector
+	tH := total
+	firsts := [][]string{{"-n=7", "-nosuch"}, {"-s=old", "-n"}, {"-n=abc"}, {"-b", "-v", "---x"}, {"-s=old", "-u"}, {"-b"}, {}, {"-name=x", "-d=zz"}, {"-v", "-k=!!!!", "rest"}}
+	secondAlpha := []string{"-b", "-s=new", "x", "--", "-v=false", "-n=1"}
+	var seconds [][]string
+	seconds = append(seconds, []string{})
+	for _, a := range secondAlpha {
+		seconds = append(seconds, []string{a})
+		for _, b := range secondAlpha {
+			seconds = append(seconds, []string{a, b})
+		}
+	}
+	history := func(v1, v2 []string) {
+		sess = &c10Sess{}
+		mode = "P0"
+		emit(v1)
+		mode = "P1"
+		emit(v2)
+		mode, sess = "P0", nil
+	}
+	for _, v1 := range firsts {
+		for _, v2 := range seconds {
+			history(v1, v2)
+		}
+	}
+	rh := e.Rng.Fork()
+	nHist := 3000
+	if e.Thorough() {
+		nHist = 60000
+	}
+	for i := 0; i < nHist; i++ {
+		history(c10Random(rh), c10Random(rh))
+	}
+	e.Stats["history_calls"] = total - tH
+
+	// (d) the FromCommandLine entry point (os.Args), before and after package testing's flags are registered in the global
+	// flag.CommandLine; tokens spelled like global flags in value position, after "--", after the first non-flag, and as flags
+	fromCL := func(names []string) {
+		alpha := []string{"-s", "-b", "x", "--", "-test.v", "--test.run=x", "-test.timeout", "5s", "-test.v=true", "-n", "-test.count=2", "-name=-test.v"}
+		var gen func(prefix []string, l int)
+		gen = func(prefix []string, l int) {
+			if l == 0 {
+				emit(prefix)
+				return
+			}
+			for _, t := range alpha {
+				gen(append(prefix[:len(prefix):len(prefix)], t), l-1)
+			}
+		}
+		for l := 0; l <= 3; l++ {
+			gen(nil, l)
+		}
+		for _, n := range names {
+			for _, d := range []string{"-", "--"} {
+				emit([]string{"-s", d + n})
+				emit([]string{"-s", d + n, "-b"})
+				emit([]string{"--name", d + n + "=1", "rest"})
+				emit([]string{"--", d + n + "=1", "x"})
+				emit([]string{"-b", "x", d + n, "-v"})
+				emit([]string{d + n})
+				emit([]string{"-b", d + n + "=1"})
+				emit([]string{"-s=" + d + n, d + n + "=true"})
+			}
+		}
+	}
+	tF := total
+	mode = "F"
+	fromCL([]string{"test.v", "test.run", "test.timeout", "test.short", "test.count", "test.bench", "test.paniconexit0"})
+	testing.Init()
+	var global []string
+	flag.VisitAll(func(f *flag.Flag) { global = append(global, f.Name) })
+	e.Stats["global_flags_after_testing_init"] = len(global)
+	mode = "FT"
+	fromCL(global)
+	// and plain Parse again in the new process state
+	mode = "P0"
+	for l := 0; l <= 2; l++ {
+		gen(c10Alphabet, nil, l)
+	}
+	for _, n := range global {
+		emit([]string{"-s", "-" + n, "-b"})
+		emit([]string{"--", "-" + n + "=1"})
+		emit([]string{"-" + n})
+	}
+	e.Stats["from_command_line_and_testing_init_vectors"] = total - tF
+
 	// (b) grammar-aware random
 	r := e.Rng.Fork()
 	for i := 0; i < nRandom; i++ {
